@@ -977,3 +977,76 @@ Proof.
   rewrite pset_all_is_pmerge; [| eexists; reflexivity | eexists; reflexivity | exact FU].
   apply (pmerge_empty _ _ eq_refl W FU).
 Qed.
+
+(* ------------------------------------------------------------ updates with leafless branches: the general merge theorem *)
+Definition prune_kid (kv : string * ptree) : list (string * ptree) :=
+  match snd kv with
+  | PLeaf v => [(fst kv, PLeaf v)]
+  | PNode _ => match prune (snd kv) with PNode [] => [] | s => [(fst kv, s)] end
+  end.
+Lemma prune_node kids : prune (PNode kids) = PNode (flat_map prune_kid kids).
+Proof. reflexivity. Qed.
+
+Lemma pitems_prune u : pitems (prune u) = pitems u.
+Proof.
+  induction u using ptree_ind'; [reflexivity|]. rewrite prune_node.
+  induction H as [|kv r Hkv Hr IH]; [reflexivity|].
+  cbn [flat_map]. rewrite pitems_app. cbn [pitems flat_map] in IH |- *. rewrite IH. f_equal.
+  unfold prune_kid. destruct (snd kv) as [v|ks] eqn:E; [simpl; rewrite ?app_nil_r; reflexivity|].
+  rewrite <- Hkv. destruct (prune (PNode ks)) as [v|[|kv' ks']] eqn:P; simpl; rewrite ?app_nil_r; reflexivity.
+Qed.
+
+Lemma pfull_prune u : pfull (prune u) = true.
+Proof.
+  induction u using ptree_ind'; [reflexivity|]. rewrite prune_node, pfull_node.
+  induction H as [|kv r Hkv Hr IH]; [reflexivity|].
+  cbn [flat_map]. rewrite forallb_app, IH, andb_true_r.
+  unfold prune_kid. destruct (snd kv) as [v|ks] eqn:E; [reflexivity|].
+  destruct (prune (PNode ks)) as [v|[|kv' ks']] eqn:P; try reflexivity.
+  unfold full_kid. simpl. rewrite andb_true_r. exact Hkv.
+Qed.
+
+Theorem update_is_merge_general cow t u ign : is_node t = true -> is_node u = true -> twf u = true ->
+  exists r w, tree_update cow t u ign = Some (r, w) /\ shape_of r = merge_spec ign (shape_of t) (shape_of u).
+Proof.
+  intros Nt Nu W. unfold tree_update, items_to_tree, merge_spec.
+  rewrite <- tree_keys_items, (keys_nodup _ W).
+  destruct u as [|ou cu ku]; [discriminate|].
+  destruct (set_all_some cow (cls_of (copy_top t)) ign _ (node_items_nonempty_paths ou cu ku) (copy_top t, false)) as ([r w] & S).
+  exists r, w. split; [exact S|]. apply set_all_shape in S. rewrite S.
+  assert (Ec : shape_of (copy_top t) = shape_of t) by (destruct t; reflexivity). rewrite Ec.
+  rewrite tree_items_shape, <- pitems_prune.
+  apply pset_all_is_pmerge; [cbn [shape_of]; rewrite prune_node; eexists; reflexivity | apply shape_node; exact Nt | apply pfull_prune].
+Qed.
+
+(* on an update without leafless branches the general spec is the plain recursive merge *)
+Lemma prune_full u : pfull u = true -> prune u = u.
+Proof.
+  induction u using ptree_ind'; intros F; [reflexivity|]. rewrite prune_node. f_equal. rewrite pfull_node in F.
+  induction H as [|kv r Hkv Hr IH]; [reflexivity|]. simpl in F. apply andb_true_iff in F as [F1 F2].
+  cbn [flat_map]. rewrite (IH F2). unfold prune_kid, full_kid in *. destruct kv as [k s]. simpl in *.
+  destruct s as [v|[|kv' ks']]; [reflexivity | discriminate|]. rewrite (Hkv F1). reflexivity.
+Qed.
+
+Lemma merge_idem_aux ign l : Forall (fun kv => pwf (snd kv) = true -> pmerge ign (snd kv) (prune (snd kv)) = snd kv) l ->
+  forallb (fun kv => pwf (snd kv)) l = true ->
+  forall acc, (forall kv, In kv l -> lookup (fst kv) acc = Some (snd kv)) -> fold_left (mstep ign) (flat_map prune_kid l) acc = acc.
+Proof.
+  induction 1 as [|kv r Hkv Hr IH]; intros W acc K; [reflexivity|].
+  simpl in W. apply andb_true_iff in W as [W1 W2]. cbn [flat_map]. rewrite fold_left_app.
+  assert (A : lookup (fst kv) acc = Some (snd kv)) by (apply K; left; reflexivity).
+  assert (S : fold_left (mstep ign) (prune_kid kv) acc = acc).
+  { unfold prune_kid. destruct (snd kv) as [v|ks] eqn:E.
+    - simpl. unfold mstep. simpl. rewrite A. destruct (in_model v ign); [reflexivity | apply kset_same; exact A].
+    - specialize (Hkv W1). destruct (prune (PNode ks)) as [v|[|kv' ks']] eqn:P; [| reflexivity |].
+      + destruct ks; discriminate.
+      + cbn [fold_left]. unfold mstep. cbn [fst snd]. rewrite A, Hkv. apply kset_same. exact A. }
+  rewrite S. apply IH; [exact W2|]. intros kv' I. apply K. right. exact I.
+Qed.
+
+Lemma merge_idem ign t : pwf t = true -> pmerge ign t (prune t) = t.
+Proof.
+  induction t using ptree_ind'; intros W; [reflexivity|].
+  rewrite prune_node, pmerge_node. simpl in W |- *. apply andb_true_iff in W as [ND W]. f_equal.
+  apply (merge_idem_aux ign kids H W). intros [k s] I. apply (lookup_In _ _ _ ND I).
+Qed.
